@@ -505,6 +505,16 @@ func c17Run(t *testing.T, sc Scenario, res *Result) {
 		res.inc("directories")
 		res.inc("explicit_unusable_plus_valid")
 		res.nontrivial("explicit/" + filepath.Base(bad) + fmt.Sprint(len(junk)))
+		if with.rp.FailFile == bad && len(with.log.Invs) > 0 && with.log.Invs[0].Kind == "buffer" && with.log.Invs[0].signalled() {
+			// the truncation left a file that still parses and whose (shorter) test case still falsifies the property:
+			// that is a usable fail file, and the failure reported from it has to be real
+			res.inc("explicit_truncation_still_usable")
+			v := judgeReality(with, true)
+			for _, pr := range v.problems {
+				res.violate(sc, "c17/explicit-usable/"+firstWords(pr, 5), "a truncated file given with -rapid.failfile was used as a fail file but: "+pr, map[string]any{"explicit": bad, "with_flag": with.tb.brief()})
+			}
+			return
+		}
 		if with.rp.Kind != plain.rp.Kind || with.rp.M != plain.rp.M || with.rp.N != plain.rp.N {
 			res.violate(sc, "c17/explicit-verdict", fmt.Sprintf("an unusable -rapid.failfile changed the verdict: %q vs %q without the flag", clip(with.rp.Raw+with.rp.Kind, 160), clip(plain.rp.Raw+plain.rp.Kind, 160)),
 				map[string]any{"explicit": bad, "directory_file": genFiles[0], "with_flag": with.tb.brief(), "without_flag": plain.tb.brief()})
